@@ -103,7 +103,25 @@ func c09exec(j run.Job, a *run.Acc) {
 	for it := 0; it < j.N; it++ {
 		var raw []byte
 		for i, k := 0, r.Intn(9); i < k; i++ {
+			if r.Intn(5) == 0 {
+				raw = append(raw, byte(r.Intn(256))) // any byte at all: control bytes, NUL, 0x80-0xff
+				continue
+			}
 			raw = append(raw, c09pieces[r.Intn(len(c09pieces))]...)
+		}
+		if j.Family == "byte-sweep" {
+			// every byte value in turn, after a word / before a word / alone: byte classes (word, whitespace, rune lead) are
+			// predicates over all 256 values
+			b := byte(it % 256)
+			word := []string{"nil", "ab", "_1", "Z", "true", "0"}[(it/256)%6]
+			switch (it / 1536) % 3 {
+			case 0:
+				raw = append([]byte("x "+word), b, ' ', 'y')
+			case 1:
+				raw = append([]byte{b}, word...)
+			default:
+				raw = append([]byte(word), b)
+			}
 		}
 		nPre := r.Intn(4)
 		pre := make([]int, nPre)
@@ -321,11 +339,12 @@ func init() {
 			for i := 0; i < n; i++ {
 				jobs = append(jobs, run.Job{Family: "files", Seed: seed*100000 + int64(i), N: per})
 			}
+			jobs = append(jobs, run.Job{Family: "byte-sweep", Seed: seed*100000 + 90000, N: 256 * 6 * 3})
 			return jobs
 		},
 		Exec: c09exec,
 		Finish: func(tier string, a *run.Acc, cov map[string]any) string {
-			cov["rule"] = "case = one file (pieces: ASCII, '_', digits, space, tab, LF, FF, CRLF, lone CR, 2/3/4-byte runes, truncated runes, 0xff) at a base offset varied by 0-3 preceding files (and an optional following file). " +
+			cov["rule"] = "case = one file (pieces: ASCII, '_', digits, space, tab, LF, FF, CRLF, lone CR, 2/3/4-byte runes, truncated runes, 0xff, one piece in five an arbitrary byte 0-255; family byte-sweep: each of the 256 byte values after / before / at the end of six words) at a base offset varied by 0-3 preceding files (and an optional following file). " +
 				"At EVERY position 0..len: Remaining, IsEOF, ReadRune (14 runes), MatchString/MatchWord (substrings at the cursor, one-bit mutations, over-long strings ending past EOF), " +
 				"ReadRegexp/ReadRegexpSubmatch (15 expressions, oracle = regexp package anchored with \\A on the suffix), Readf (contract-honouring functions, value shorter than read), SkipWhitespaces in 4 modes " +
 				"are compared with loop-and-compare specifications: match => new = old + matched length <= EOF and returned bytes equal the file's, mismatch => old position; an out-of-bounds access shows as a panic. " +
